@@ -110,13 +110,15 @@ func parseWitness(w string) (t table, list []string, ok bool) {
 // reference parser (from the statement)
 
 type expect struct {
-	asserted   bool
-	why        string // reason when not asserted
-	err        bool
-	flags      map[string]any
-	additional []string
-	usedFlag   bool // a declared flag or `--` took part (non-triviality)
-	usedAlias  bool
+	asserted    bool
+	why         string // reason when not asserted
+	err         bool
+	flags       map[string]any
+	additional  []string
+	usedFlag    bool // a declared flag or `--` took part (non-triviality)
+	usedAlias   bool
+	mustReport  string // ill-formed lists: the value flag that must be reported if the call succeeds
+	prefixFlags map[string]any
 }
 
 func reference(t table, list []string) expect {
@@ -173,7 +175,7 @@ func reference(t table, list []string) expect {
 		val := list[i+1]
 		if !valueTokens[val] {
 			// ill-formed: a value flag followed by something that is not a plain value token
-			return expect{why: "ill-formed (value flag not followed by a value token)", usedFlag: true, usedAlias: e.usedAlias}
+			return expect{why: "ill-formed (value flag not followed by a value token)", usedFlag: true, usedAlias: e.usedAlias, mustReport: mustReportIf(t, name, val), prefixFlags: e.flags}
 		}
 		i++
 		if prev, dup := seen[name]; dup && prev != val {
@@ -206,6 +208,17 @@ func reference(t table, list []string) expect {
 		}
 	}
 	return e
+}
+
+// mustReportIf: a value flag followed by a dash-token that is neither `--` nor a declared flag/alias is
+// unambiguous enough: that token can only be the flag's value, so a successful parse must report the flag.
+// (Followed by a *declared* flag murex drops the value flag silently; the statement does not say which of
+// the two readings is right, so that case stays unasserted.)
+func mustReportIf(t table, name, next string) string {
+	if next == "--" || t.flags[next] != "" {
+		return ""
+	}
+	return name
 }
 
 // ---------------------------------------------------------------------------------------------
@@ -484,6 +497,14 @@ func one(c *vlib.Ctx, st *argsState, t table, list []string, withArgs bool, n in
 		outcome = "api-panic"
 	case !exp.asserted:
 		c.Extra("not asserted: "+exp.why, 1)
+		// even where the statement does not define the result: a declared value flag that was given
+		// and followed by a token cannot silently vanish from a successful result ("reports each
+		// declared flag ... and otherwise reports a clean error")
+		if exp.mustReport != "" && !api.isErr {
+			if _, ok := api.flags[exp.mustReport]; !ok {
+				c.Violation("flag-not-dropped", w, fmt.Sprintf("ParseFlags succeeded with flags=%s additional=%q: the declared flag %s was given (followed by a token) and is neither reported nor rejected", fmtFlags(api.flags), api.additional, exp.mustReport))
+			}
+		}
 		if api.isErr {
 			outcome = "undefined-list/error"
 		} else {
